@@ -122,3 +122,17 @@ def configs(max_n, classes=None, l_max=None, min_count=3, deformed=True):
 def cfg_label(cfg):
     d = cfg.get('deformation')
     return '%s%s%s' % (cfg['cls'], tuple(cfg['size']), '' if not d else '+%s%s' % (d[0], d[1] or ''))
+
+
+# Configurations that an open C01 finding marks as not-a-valid-code.  Checks that presuppose a
+# valid code (C04, C05, C08, C17, ...) skip them and count them as skipped.
+_D18 = {(3, 6, 6), (5, 4, 6), (5, 6, 4), (6, 4, 6), (6, 6, 4), (3, 6, 7), (3, 7, 6), (3, 7, 7), (5, 4, 7),
+        (5, 7, 4), (6, 4, 7), (6, 7, 4), (7, 4, 6), (7, 4, 7), (7, 6, 4), (7, 7, 4)}
+
+
+def known_invalid(cfg):
+    if cfg['cls'] == 'Color666ToricCode' and cfg['size'][0] != cfg['size'][1]:
+        return 'D12b'
+    if cfg['cls'] == 'HollowRhombicCode' and tuple(cfg['size']) in _D18:
+        return 'D18'
+    return None
